@@ -374,6 +374,54 @@ Qed.
 Lemma filter_len_le (f : pod -> bool) l : (length (filter f l) <= length l)%nat.
 Proof. induction l; simpl; auto. destruct (f a); simpl; lia. Qed.
 
+Lemma ssorted_app_l {A} (R : A -> A -> Prop) l1 l2 : StronglySorted R (l1 ++ l2) -> StronglySorted R l1.
+Proof.
+  induction l1 as [|x l1 IH]; simpl; intros H. constructor.
+  inversion H; subst. constructor; auto. rewrite Forall_forall in *. intros y Hy. apply H3. apply in_or_app. auto.
+Qed.
+
+Lemma ssorted_filter {A} (R : A -> A -> Prop) (f : A -> bool) l : StronglySorted R l -> StronglySorted R (filter f l).
+Proof.
+  induction 1 as [|x l S IH Hx]; simpl. constructor.
+  destruct (f x); auto. constructor; auto.
+  rewrite Forall_forall in *. intros y Hy. apply filter_In in Hy. apply Hx. tauto.
+Qed.
+
+(* the pods behind the calls of one pass, in call order, are sorted by
+   descending request of that pass's resource *)
+Lemma tried_sorted res pods fl :
+  let tried := tried_pods (victims res pods) fl in
+  map p_id tried = map fst (a_calls (try_evict (victims res pods) fl)) /\
+  StronglySorted (ge_req res) tried /\ incl tried pods.
+Proof.
+  intros tried. split; [apply tried_ids|]. split.
+  - destruct (tried_prefix (victims res pods) fl) as (rest & E & _).
+    apply (ssorted_app_l _ _ rest). fold tried in E. rewrite <- E.
+    apply ssorted_filter, victims_sorted.
+  - intros p Hp. apply tried_in in Hp. destruct Hp as [Hp _]. apply victims_in in Hp. tauto.
+Qed.
+
+Definition pass_sorted (res : Z) (pods0 : list pod) (calls : list (Z * bool)) : Prop :=
+  (exists tried, map p_id tried = map fst calls /\ StronglySorted (ge_req res) tried /\ incl tried pods0) /\
+  (length (filter (fun c => snd c) calls) <= 1)%nat /\
+  (forall pre c post, calls = pre ++ c :: post -> snd c = true -> post = []).
+
+Lemma evict_pass_sorted res pods fl :
+  let '(_, cs, _) := evict_pass res (pods, fl) in pass_sorted res pods cs.
+Proof.
+  unfold evict_pass. destruct (use_extend res pods).
+  - split.
+    + exists (tried_pods (victims res pods) fl). apply tried_sorted.
+    + destruct (calls_shape (victims res pods) fl) as (fails & F & E). rewrite E. apply shape_one_success; auto.
+  - split. { exists []. simpl. split; auto. split; [constructor|intros x []]. }
+    simpl. split. lia. intros pre c post E. destruct pre; discriminate.
+Qed.
+
+Lemma pass_sorted_incl res pods pods0 cs : incl pods pods0 -> pass_sorted res pods cs -> pass_sorted res pods0 cs.
+Proof.
+  intros I ((tried & A & B & C) & D). split; auto. exists tried. split; auto. split; auto. eapply incl_tran; eauto.
+Qed.
+
 Lemma evict_pass_facts res pods fl :
   let '(s', cs, k) := evict_pass res (pods, fl) in
   incl (fst s') pods /\
@@ -410,10 +458,16 @@ Proof.
     intros p Hp Hn. tauto.
 Qed.
 
-Definition cl_ok (pods0 : list pod) (calls : list (Z * bool)) (s : estate) : Prop :=
-  (forall c, In c calls -> exists p, In p pods0 /\ p_id p = fst c /\ preemptable p = true /\ critical p = false) /\
+Definition cl_ok (pods0 : list pod) (passes : list (list (Z * bool) * list (Z * bool))) (s : estate) : Prop :=
+  (forall c, In c (flat_passes passes) ->
+     exists p, In p pods0 /\ p_id p = fst c /\ preemptable p = true /\ critical p = false) /\
   incl (fst s) pods0 /\
-  (forall p, In p pods0 -> preemptable p = false \/ critical p = true -> In p (fst s)).
+  (forall p, In p pods0 -> preemptable p = false \/ critical p = true -> In p (fst s)) /\
+  (* largest request first within every pass: cpu passes by cpu request, memory passes by memory request *)
+  Forall (fun p => pass_sorted 1 pods0 (fst p) /\ pass_sorted 2 pods0 (snd p)) passes.
+
+Lemma flat_passes_app a b : flat_passes (a ++ b) = flat_passes a ++ flat_passes b.
+Proof. unfold flat_passes. apply flat_map_app. Qed.
 
 Lemma pod_eq_dec (a b : pod) : {a = b} + {a <> b}.
 Proof. decide equality; try apply Z.eq_dec; try apply bool_dec. decide equality; apply Z.eq_dec. Qed.
@@ -426,16 +480,17 @@ Lemma evict_loop_ok : forall fuel round ne pods0 pods fl acc,
 Proof.
   induction fuel as [|k IH]; intros round ne pods0 pods fl acc Hlen ND Hok. lia.
   cbn [evict_loop]. destruct (ne =? Z.of_nat round). { do 4 eexists. split; eauto. }
-  pose proof (evict_pass_facts 1 pods fl) as F1.
+  pose proof (evict_pass_facts 1 pods fl) as F1. pose proof (evict_pass_sorted 1 pods fl) as G1.
   destruct (evict_pass 1 (pods, fl)) as [[[pods1 fl1] c1] k1]. cbn [fst] in F1.
   destruct F1 as (A1 & A2 & A3 & A4 & A5).
-  pose proof (evict_pass_facts 2 pods1 fl1) as F2.
+  pose proof (evict_pass_facts 2 pods1 fl1) as F2. pose proof (evict_pass_sorted 2 pods1 fl1) as G2.
   destruct (evict_pass 2 (pods1, fl1)) as [[[pods2 fl2] c2] k2]. cbn [fst] in F2.
   destruct F2 as (B1 & B2 & B3 & B4 & B5).
-  destruct Hok as (O1 & O2 & O3). cbn [fst] in *.
-  assert (Hok' : cl_ok pods0 (acc ++ c1 ++ c2) (pods2, fl2)).
-  { split; [|split]; cbn [fst].
-    - intros c Hc. apply in_app_or in Hc. destruct Hc as [Hc|Hc]; auto.
+  destruct Hok as (O1 & O2 & O3 & O4). cbn [fst] in *.
+  assert (Hok' : cl_ok pods0 (acc ++ [(c1, c2)]) (pods2, fl2)).
+  { split; [|split; [|split]]; cbn [fst].
+    - intros c Hc. rewrite flat_passes_app in Hc. apply in_app_or in Hc. destruct Hc as [Hc|Hc]; auto.
+      unfold flat_passes in Hc. simpl in Hc. rewrite app_nil_r in Hc.
       apply in_app_or in Hc. destruct Hc as [Hc|Hc].
       + destruct (A3 c Hc) as (p & ? & ?). exists p. split; auto.
       + destruct (B3 c Hc) as (p & ? & ?). exists p. split; auto.
@@ -444,7 +499,10 @@ Proof.
       destruct (in_dec pod_eq_dec p pods1) as [H1|H1].
       + destruct (in_dec pod_eq_dec p pods2) as [H2|H2]; auto.
         destruct (B4 p H1 H2 (A5 ND)) as (X & Y & _). destruct Hon; congruence.
-      + destruct (A4 p O3 H1 ND) as (X & Y & _). destruct Hon; congruence. }
+      + destruct (A4 p O3 H1 ND) as (X & Y & _). destruct Hon; congruence.
+    - apply Forall_app. split; auto. constructor; [|constructor]. cbn [fst snd]. split.
+      + eapply pass_sorted_incl; eauto.
+      + eapply pass_sorted_incl; [|exact G2]. eapply incl_tran; eauto. }
   destruct (k1 || k2) eqn:K.
   - apply IH; auto.
     + assert (length pods2 <= length pods1)%nat by (apply NoDup_incl_length; auto; apply NoDup_map_inv in B5; auto; apply (NoDup_map_inv p_id); auto).
@@ -458,7 +516,7 @@ Lemma cleanup_ok ne pods fl : NoDup (map p_id pods) ->
 Proof.
   intros ND. unfold cleanup.
   assert (Hok : cl_ok pods [] (pods, fl)).
-  { split; [intros c []|split; [apply incl_refl|auto]]. }
+  { split; [intros c []|split; [apply incl_refl|split; [auto|constructor]]]. }
   destruct (ne =? 0). { do 4 eexists. split; eauto. }
   cbn [fst]. apply evict_loop_ok; auto.
 Qed.
@@ -486,12 +544,103 @@ Proof.
   - match goal with X : Nat.leb _ 1 = true |- _ => apply Nat.leb_le in X; unfold succeeded in X; rewrite map_length in X; exact X end.
 Qed.
 
-Lemma law_cleanup_sound pods calls after :
-  nodupb (map p_id pods) = true -> law_cleanup pods calls after = true ->
-  forall c, In c calls ->
+Lemma law_cleanup_sound pods passes after :
+  nodupb (map p_id pods) = true -> law_cleanup pods passes after = true ->
+  forall c, In c (flat_passes passes) ->
     exists p, In p pods /\ p_id p = fst c /\ preemptable p = true /\ critical p = false.
 Proof.
   intros ND. unfold law_cleanup. rewrite ND. intros H.
   repeat (apply andb_true_iff in H as [H ?]).
   rewrite forallb_forall in H. intros c Hc. apply call_eligible_sound. auto.
+Qed.
+
+(* ---------- audit additions ---------- *)
+(* with unique pod names the pod behind a call is THE pod of that name *)
+Lemma handle_only_offline_unique pods fl e c :
+  NoDup (map p_id pods) -> In c (h_calls (snd (handle (pods, fl) e))) ->
+  forall p, In p pods -> p_id p = fst c -> preemptable p = true /\ critical p = false.
+Proof.
+  intros ND Hc p Hp E. destruct (handle_only_offline pods fl e c Hc) as (q & Hq & Eq & A & B).
+  assert (p = q) by (apply (nodup_id_eq pods); auto; congruence). subst q. auto.
+Qed.
+
+(* largest request first along every sequence of pressure events: the pods
+   behind the calls of each event, in call order, are sorted by descending
+   request of THAT event's resource *)
+Lemma hrun_sorted : forall evs pods0 pods fl, incl pods pods0 ->
+  Forall2 (fun e (oa : hout * list Z) =>
+             exists tried, map p_id tried = map fst (h_calls (fst oa)) /\
+                           StronglySorted (ge_req (e_res e)) tried /\ incl tried pods0)
+          evs (snd (hrun (pods, fl) evs)).
+Proof.
+  induction evs as [|e evs IH]; intros pods0 pods fl Hincl; cbn [hrun]. { constructor. }
+  pose proof (handle_incl pods fl e) as H3.
+  assert (Hs : exists tried, map p_id tried = map fst (h_calls (snd (handle (pods, fl) e))) /\
+                             StronglySorted (ge_req (e_res e)) tried /\ incl tried pods0).
+  { destruct (processed e) eqn:P.
+    - rewrite (handle_processed _ _ _ P). cbn [snd h_calls].
+      destruct (tried_sorted (e_res e) pods fl) as (A & B & C).
+      exists (tried_pods (victims (e_res e) pods) fl). split; auto. split; auto. eapply incl_tran; eauto.
+    - destruct (handle_not_processed pods fl e P) as [_ H]. rewrite H. exists []. simpl.
+      split; auto. split; [constructor|intros x []]. }
+  destruct (handle (pods, fl) e) as [[pods1 fl1] o]. cbn [fst snd] in *.
+  specialize (IH pods0 pods1 fl1 (incl_tran H3 Hincl)).
+  destruct (hrun (pods1, fl1) evs) as [s2 os]. cbn [fst snd] in *.
+  constructor; auto.
+Qed.
+
+(* ---------- Prop-level meaning of the boolean order checks ---------- *)
+Lemma descending_sound l : descending l = true -> StronglySorted (fun a b => b <= a) l.
+Proof.
+  intros H. apply Sorted_StronglySorted. { intros x y z; lia. }
+  induction l as [|x l IH]; [constructor|].
+  destruct l as [|y l']. { constructor; constructor. }
+  simpl in H. apply andb_true_iff in H as [H1 H2]. apply Z.leb_le in H1.
+  constructor; [apply IH; exact H2|constructor; exact H1].
+Qed.
+
+Lemma success_only_last_sound cs : success_only_last cs = true ->
+  forall pre c post, cs = pre ++ c :: post -> snd c = true -> post = [].
+Proof.
+  induction cs as [|x cs IH]; intros H pre c post E Hc. { destruct pre; discriminate. }
+  destruct cs as [|y cs'].
+  - destruct pre as [|? pre]; simpl in E. now injection E as _ <-.
+    injection E as _ E. destruct pre; discriminate.
+  - simpl in H. apply andb_true_iff in H as [H1 H2]. apply negb_true_iff in H1.
+    destruct pre as [|? pre]; simpl in E.
+    + injection E as <- _. congruence.
+    + injection E as _ E. eapply IH; eauto.
+Qed.
+
+(* law_evict: order and stop-at-first-success clauses *)
+Lemma law_evict_sound_order res pods calls after :
+  nodupb (map p_id pods) = true -> law_evict res pods calls after = true ->
+  StronglySorted (fun a b => b <= a) (map (call_req res pods) calls) /\
+  (forall pre c post, calls = pre ++ c :: post -> snd c = true -> post = []) /\
+  after = map p_id (filter (fun p => negb (zmem (p_id p) (succeeded calls))) pods).
+Proof.
+  intros ND. unfold law_evict. rewrite ND. intros H.
+  repeat (apply andb_true_iff in H as [H ?]).
+  split; [apply descending_sound; assumption|]. split; [apply success_only_last_sound; assumption|].
+  match goal with X : zlist_eqb after _ = true |- _ => revert X end.
+  generalize (map p_id (filter (fun p => negb (zmem (p_id p) (succeeded calls))) pods)).
+  induction after as [|a after IH]; intros [|b l] E; simpl in E; try discriminate; auto.
+  apply andb_true_iff in E as [E1 E2]. apply Z.eqb_eq in E1. f_equal; auto.
+Qed.
+
+(* law_cleanup: per pass largest request first and nothing after a success *)
+Lemma law_cleanup_sound_order pods passes after :
+  nodupb (map p_id pods) = true -> law_cleanup pods passes after = true ->
+  Forall (fun p => StronglySorted (fun a b => b <= a) (map (call_req 1 pods) (fst p)) /\
+                   StronglySorted (fun a b => b <= a) (map (call_req 2 pods) (snd p)) /\
+                   (forall pre c post, fst p = pre ++ c :: post -> snd c = true -> post = []) /\
+                   (forall pre c post, snd p = pre ++ c :: post -> snd c = true -> post = [])) passes.
+Proof.
+  intros ND. unfold law_cleanup. rewrite ND. intros H.
+  repeat (apply andb_true_iff in H as [H ?]).
+  match goal with X : forallb _ passes = true |- _ => rewrite forallb_forall in X; rename X into F end.
+  apply Forall_forall. intros p Hp. specialize (F p Hp). unfold pass_ok in F.
+  apply andb_true_iff in F as [F1 F2]. apply andb_true_iff in F1 as [D1 S1]. apply andb_true_iff in F2 as [D2 S2].
+  split; [apply descending_sound; exact D1|]. split; [apply descending_sound; exact D2|].
+  split; apply success_only_last_sound; assumption.
 Qed.
